@@ -63,6 +63,20 @@ def _same_shape(got, want):
     return True
 
 
+def _sub_mismatch(got, want, partial, ent):
+    """the explanation when the completely evaluated cases disagree with the reference among themselves (only the
+    roles those cases mention are looked for); None when they agree or nothing can be said"""
+    g2 = {c: got[c] for c in got if c not in partial}
+    w2 = {c: want[c] for c in want if c not in partial}
+    txt = json.dumps(list(w2.values()))
+    roles = [r for r in ent.get("roles", []) if re.search(r"(?<![A-Za-z0-9_])" + re.escape(r), txt)]
+    match_modulo.untraced = []
+    ren, why = match_modulo(g2, w2, roles, fixed_prefixes=tuple(ent.get("fixed", ["box.", "$"])))
+    if ren is not None or match_modulo.untraced or "fewer than the quantities of the reference" in (why or ""):
+        return None
+    return why
+
+
 def _independent(got, want, deps_by_case, fixed):
     """a case in which the code's value cannot depend on an attribute the reference value depends on: every operand
     is either traced to inputs, or an unknown local whose defining expressions were seen and mention other inputs
@@ -471,9 +485,9 @@ def check_sites(prog, chk, pid):
             chk.bad("A17.site-algebra", f"{name}", b.where(), f"{short} [{conditional[0]}]: whether {ent.get('watch')}() is called depends on something the case does not determine (state other than the element's name and the attributes listed), in {len(conditional)} of {len(ent['cases'])} cases; by the reference ({ent.get('why', '')}) it happens on every path")
         elif "ret" in ent and not all(_same_shape(got[c], A.ref(want[c])) for c in ent["cases"] if _reads(want[c])):
             chk.undecided("A17.site-algebra", name, b.where(), f"{short}: the result is carried in a differently shaped value than the reference describes (other field names, a struct for a tuple ...): e.g. {A.canon(got[sorted(ent['cases'])[0]])[:200]}; it cannot be compared part by part")
-        elif partial and len(partial) < len(ent["cases"]) and match_modulo({c: got[c] for c in got if c not in partial}, {c: want[c] for c in want if c not in partial}, ent.get("roles", []), fixed_prefixes=tuple(ent.get("fixed", ["box.", "$"])))[0] is None and not match_modulo.untraced:
+        elif partial and len(partial) < len(ent["cases"]) and _sub_mismatch(got, want, partial, ent):
             # the cases the evaluator did follow to a definite value disagree with the reference among themselves
-            _r2, why2 = match_modulo({c: got[c] for c in got if c not in partial}, {c: want[c] for c in want if c not in partial}, ent.get("roles", []), fixed_prefixes=tuple(ent.get("fixed", ["box.", "$"])))
+            why2 = _sub_mismatch(got, want, partial, ent)
             chk.bad("A17.site-algebra", f"{name}", b.where(), f"{short}: the values {'passed to ' + ent['watch'] + '()' if ent.get('watch') else 'returned'} disagree with the reference algebra ({ent.get('why', '')}) in the cases the evaluator follows completely ({len(ent['cases']) - len(partial)} of {len(ent['cases'])}): {why2}")
         elif partial and _independent(got, want, deps_by_case, tuple(ent.get("fixed", ["box.", "$"]))):
             c1, miss = _independent(got, want, deps_by_case, tuple(ent.get("fixed", ["box.", "$"])))
